@@ -137,12 +137,13 @@ def r031(ctx, rid):
         fnp = CC + 'State::collect_body'
         rows = P.table(ctx, fnp, ['self', 'channel_id', 'body'])
         site = ctx.site(fnp)
-        cmpc = 'std::cmp::impls::cmp(std::vec::Vec::len(self.Body.2), (self.Body.1.body_size as usize))'
+        LEN, SIZE = 'std::vec::Vec::len(self.Body.2)', '(self.Body.1.body_size as usize)'
+        cmpc = LEN  # the length is taken after the append, whatever form the three-way comparison has
         SB = '~ ' + CC + 'State::Body(_, _, _)'
-        eq = [x for x in find_path(rows, SB) if x.conds[-1] == (cmpc, 'std::cmp::Ordering::Equal')]
-        lt = [x for x in find_path(rows, SB) if x.conds[-1] == (cmpc, 'std::cmp::Ordering::Less')]
+        eq = [x for x in find_path(rows, SB) if x.conds[-1] == ('(%s == %s)' % tuple(sorted([LEN, SIZE])), True)]
+        lt = [x for x in find_path(rows, SB) if x.conds[-1] == ('(%s < %s)' % (LEN, SIZE), True)]
         st = find_path(rows, '~ ' + CC + 'State::Start(_)')
-        other = [x for x in find_path(rows, SB) if x not in eq + lt]
+        other = [x for x in find_path(rows, SB) if x.conds[-1] == ('(%s < %s)' % (SIZE, LEN), True)]
         if r.check('State::collect_body:rows', len(rows) == 4 and len(eq) == 1 and len(lt) == 1 and len(other) == 1 and len(st) == 1, site, built=[x.row() for x in rows]):
             for nm, x in (('equal', eq[0]), ('less', lt[0]), ('greater', other[0])):
                 r.check('State::collect_body:%s:append-first' % nm, x.effects and x.effects[0] == 'std::vec::Vec::append(self.Body.2, body)' and
